@@ -230,6 +230,41 @@ def run(R):
         elif m < 60 and impl[1][3] != 16 * 2 ** m:
             R.violation("shard index length is not 16 * 2^minishard_bits", case, {"impl": impl[1][3]})
 
+    # ------------------------------------------------------------ per-scale parameters through an accessor
+    # the bits that route a chunk are those of ITS scale: an accessor asked about several scales, in any
+    # order and repeatedly, must answer each with that scale's own sharding parameters
+    import json as _json
+    from neuroglancer_scripts.sharded_file_accessor import ShardedFileAccessor
+    import atexit as _atexit
+    for t in range(20 if quick else 300):
+        trip = [(rng.randrange(0, 4), rng.randrange(0, 4), rng.randrange(0, 3)) for _ in range(rng.randrange(2, 5))]
+        if len(set(trip)) == 1:
+            trip[0] = (trip[0][0] + 1, trip[0][1], trip[0][2])
+        scales = [{"key": f"s{k}", "size": [64, 64, 64], "chunk_sizes": [[8, 8, 8]], "resolution": [1, 1, 1],
+                   "voxel_offset": [0, 0, 0], "encoding": "raw",
+                   "sharding": {"@type": "neuroglancer_uint64_sharded_v1", "minishard_bits": m, "shard_bits": s_,
+                                "preshift_bits": p_, "hash": "identity", "minishard_index_encoding": "raw",
+                                "data_encoding": "raw"}} for k, (m, s_, p_) in enumerate(trip)]
+        info = {"type": "image", "data_type": "uint8", "num_channels": 1, "scales": scales}
+        dd = os.path.join(R.tmp, f"acc{t}")
+        os.makedirs(dd)
+        with open(os.path.join(dd, "info"), "w") as f:
+            _json.dump(info, f)
+        acc = ShardedFileAccessor(dd)
+        _atexit.unregister(acc.close)
+        asks = [rng.randrange(len(trip)) for _ in range(6)]
+        case = {"triples_msp": [list(x) for x in trip], "asked": asks}
+        R.case(case, nontrivial=True)
+        for k in asks:
+            got = outcome_of(lambda: dict(acc.get_sharding_spec(f"s{k}")))
+            want = (trip[k][0], trip[k][1], trip[k][2])
+            if got[0] != "ok" or (got[1].get("minishard_bits"), got[1].get("shard_bits"),
+                                   got[1].get("preshift_bits")) != want:
+                R.violation("an accessor answers a scale with another scale's sharding parameters", case,
+                            {"scale": k, "got": str(got)[:200], "want": list(want)})
+                break
+        R.count("accessor:per-scale-sharding-spec")
+
     # libm check: math.ceil(math.log2(n)) against the exact bit count (test, not proof)
     import math
     bad = []
